@@ -69,6 +69,10 @@ func isCardNumberValid(cardNumber uint32, formats ...types.CardFormat) bool {
 func isWiegand26(card uint32) bool {
 	s := fmt.Sprintf("%08v", card)
 
+	if len(s) != 8 {
+		return false
+	}
+
 	if facilityCode, err := strconv.Atoi(s[:3]); err != nil {
 		return false
 	} else if cardNumber, err := strconv.Atoi(s[3:]); err != nil {
